@@ -6,9 +6,10 @@ CONSTANTS
   PVals = {0, 1, 2, 3, 4, 5}
   LVals = {0, 1, 2, 3, 4}
   ForbSets = {{}}
+  Inits = {4, 13}
   PV = {1, 3}
   MinV = {3}
-  MaxV = {1, 3}
+  MaxV = {1}
   Pairs = {13, 31}
   APairs = {31}
   Depth = 5
